@@ -98,7 +98,10 @@ def gen_world(rng, i, tier):
     glob = rng.pick([None, None, [".d"], [".conf.d", ".d"]])
     cfg = gen.io_cfg(rng)
     cfg["cwd"] = "$ROOT"
-    return {"kind": "threads", "tasks": tasks, "nodes": nodes, "sched": sched, "global_dirs": glob, "cfg": cfg}
+    # a quarter of the joint runs are the first thing a new process does: whatever the library sets up lazily on
+    # first use is then set up under the seeded scheduler
+    fresh = rng.chance(0.25)
+    return {"kind": "threads", "tasks": tasks, "nodes": nodes, "sched": sched, "global_dirs": glob, "cfg": cfg, "fresh": fresh}
 
 
 def block_ops(b, base):
@@ -168,6 +171,10 @@ def build_plans(world):
 
 
 def run_case(ctx, world, plans):
+    if world.get("fresh"):
+        for fl in ("asan", "tsan"):
+            if fl in ctx.ex:
+                ctx.ex.pop(fl).close()
     ex = ctx.executor("asan")
     results = [ex.run(p) for p in plans]
     # the same plan and scheduler seed in the ThreadSanitizer build (its own, equally deterministic interleaving:
@@ -274,6 +281,8 @@ def check(world, plans, results):
     v.sig = sig_of(sc.get("sig"), nt, kinds)
     v.probe("threads_%d" % nt)
     v.probe("policy_" + world["sched"]["mode"])
+    if world.get("fresh"):
+        v.probe("joint_run_is_first_use_in_a_new_process")
     if sc.get("in_edge"):
         v.probe("switch_inside_library_code", sc["in_edge"])
     return v
